@@ -421,10 +421,13 @@ func (s *shard) repair(ctx context.Context, id []byte, property *propertyv1.Prop
 	}
 
 	// if the lastest property in shard is bigger than the repaired property,
-	// then the repaired process should be stopped.
+	// then the repaired process should be stopped. At the same revision a tombstone
+	// outranks the live value (and the later tombstone an earlier one), so that an
+	// exchange never brings a deleted property back and replicas converge whatever
+	// the direction and order of the exchanges.
 	if (olderProperties[len(olderProperties)-1].timestamp > property.Metadata.ModRevision) ||
 		olderProperties[len(olderProperties)-1].timestamp == property.Metadata.ModRevision &&
-			olderProperties[len(olderProperties)-1].deleteTime == deleteTime {
+			olderProperties[len(olderProperties)-1].deleteTime >= deleteTime {
 		return false, olderProperties[len(olderProperties)-1], nil
 	}
 
